@@ -2565,15 +2565,20 @@ int32 matrixValidateCertsExt(psPool_t *pool, psX509Cert_t *subjectCerts,
                     if (opts->nameType == NAME_TYPE_ANY ||
                         opts->nameType == NAME_TYPE_SAN_IP_ADDRESS)
                     {
-                        Snprintf(ip, 15, "%u.%u.%u.%u",
-                            (unsigned char) (n->data[0]),
-                            (unsigned char ) (n->data[1]),
-                            (unsigned char ) (n->data[2]),
-                            (unsigned char ) (n->data[3]));
-                        ip[15] = '\0';
-                        if (Strcmp(ip, expectedName) == 0)
+                        /* Only IPv4 addresses (4 octets) can be compared
+                           with a dotted-quad expected name */
+                        if (n->dataLen == 4)
                         {
-                            return rc;
+                            Snprintf(ip, sizeof(ip), "%u.%u.%u.%u",
+                                (unsigned char) (n->data[0]),
+                                (unsigned char ) (n->data[1]),
+                                (unsigned char ) (n->data[2]),
+                                (unsigned char ) (n->data[3]));
+                            ip[15] = '\0';
+                            if (Strcmp(ip, expectedName) == 0)
+                            {
+                                return rc;
+                            }
                         }
                     }
                     break;
